@@ -312,6 +312,19 @@ class DepTreeLoop(LoopSpec):
         ]
 
 
+class AnyCache:
+    """Cache in an arbitrary state: `node in cache` is an unconstrained boolean (a bounded cache may have evicted any node)."""
+
+    def __pyvc_contains__(self, engine, item, cx, lineno):
+        return SB(cx.fresh('in_cache', B))
+
+    def __pyvc_getitem__(self, engine, key, cx, lineno):
+        raise Unsupported('value read from the arbitrary-state cache')
+
+    def __pyvc_setitem__(self, engine, key, v, cx, lineno):
+        pass
+
+
 class CreateDepTreeBody(TreeContract):
     """Real body of _create_dependency_tree(dt): partial correctness -- no exception, tree only refined, WF kept,
     piece_length > 0 for every documented cache_size (termination of the refinement is argued in DESIGN, not proved)."""
@@ -322,6 +335,8 @@ class CreateDepTreeBody(TreeContract):
         self.entry_heap = w.heap.snapshot()
         cs_none = cx.fresh('cache_size_none', B)
         w.extra.update({'_cache_size': OptVal(cs_none, SV(cx.fresh('cache_size', Z))), '_tree_dt': SV(cx.fresh('tree_dt'))})
+        if w.cache is None:
+            w.cache = AnyCache()       # the cache may hold any subset of the nodes: membership is an arbitrary boolean
         E.loops[(self.qualname, 0)] = DepTreeLoop(self)
         return {'self': w.topref, 'dt': cx.real('dt'), '$w': w, '$old': self.entry_heap}
 
